@@ -150,6 +150,20 @@ func cmdCheck(args []string) {
 			cfg := sym.RunConfig{PkgPath: pr.ModPath + "/" + pkg, Harness: in.hp.Fn, Params: in.params, MaxSteps: steps, MaxDepth: 300, MaxMake: 64,
 				Workers: *workers, UsePool: true, Known: known, MapOrderMax: mo, Deadline: deadline, MaxPaths: 200000}
 			in.res = pr.Run(cfg)
+			if len(in.res.Unknown) > 0 && len(in.res.Violations) == 0 {
+				// second opinion: re-run the whole instance with cvc5 (bit-blasts eagerly; decides some
+				// queries on which z3's incremental core gives up)
+				cfg2 := cfg
+				cfg2.UsePool = false
+				cfg2.SolverBin = "cvc5"
+				cfg2.TimeoutMs = 60000
+				cfg2.Workers = 4
+				r2 := pr.Run(cfg2)
+				if len(r2.Unknown) < len(in.res.Unknown) {
+					r2.Retried = "cvc5"
+					in.res = r2
+				}
+			}
 		}(in)
 	}
 	wg.Wait()
